@@ -130,6 +130,25 @@ def harness_target_dir(profile_release=False):
     return os.path.join(HARNESS, "target-" + repo_tag())
 
 
+def harness_dir():
+    """Directory holding the generated Cargo.toml of the harness for the checkout under test.
+    For /repo it is harness/ itself; for a scratch checkout (EASYML_REPO) it is a directory of
+    symlinks under work/, so that concurrent runs against different checkouts neither rewrite
+    each other's manifest nor wait for one another's builds."""
+    if os.path.abspath(REPO) == "/repo":
+        return HARNESS
+    d = os.path.join(WORK, "hm-" + repo_tag())
+    os.makedirs(d, exist_ok=True)
+    for name in ("src", ".cargo", "Cargo.toml.in"):
+        link = os.path.join(d, name)
+        if not os.path.islink(link):
+            try:
+                os.symlink(os.path.join(HARNESS, name), link)
+            except FileExistsError:
+                pass
+    return d
+
+
 def harness_bin(pid, release=False):
     return os.path.join(harness_target_dir(), "release" if release else "debug", "emlv-" + pid)
 
@@ -146,27 +165,31 @@ def build_harness(pid=None, release=False):
     """Builds the harness binary of one property (or of all, pid=None) against the checkout under
     test; one binary per property (harness/src/bin/emlv-Cxx.rs) keeps rebuilds after a change
     of the checkout small.  Returns the path of the property's binary."""
-    with Lock("cargo"):
+    hdir = harness_dir()
+    with Lock("cargo" if hdir == HARNESS else "cargo-" + repo_tag()):
         with open(os.path.join(HARNESS, "Cargo.toml.in")) as f:
             tmpl = f.read()
         feats = '"verif-hooks"' if hooks_available() else ""
         text = (tmpl.replace("@REPO@", os.path.abspath(REPO)).replace("@FEATURES@", feats)
                 .replace("@HFEATURES@", '"hooks"' if feats else ""))
-        cargo_toml = os.path.join(HARNESS, "Cargo.toml")
+        cargo_toml = os.path.join(hdir, "Cargo.toml")
         old = open(cargo_toml).read() if os.path.exists(cargo_toml) else None
         if old != text:
             with open(cargo_toml, "w") as f:
                 f.write(text)
-        lock = os.path.join(HARNESS, "Cargo.lock")
+        lock = os.path.join(hdir, "Cargo.lock")
         if not os.path.exists(lock):
-            shutil.copy(os.path.join(REPO, "Cargo.lock"), lock)
+            for cand in (os.path.join(HARNESS, "Cargo.lock"), os.path.join(REPO, "Cargo.lock"), "/repo/Cargo.lock"):
+                if os.path.exists(cand) and cand != lock:
+                    shutil.copy(cand, lock)
+                    break
         cmd = ["cargo", "build", "--offline", "--quiet", "--target-dir", harness_target_dir()]
         cmd += ["--bin", "emlv-" + pid] if pid else ["--bins"]
         if release:
             cmd.append("--release")
         env = dict(ENV)
         env["RUSTFLAGS"] = env.get("RUSTFLAGS", "") + " -Awarnings"
-        rc, out, err = sh(cmd, cwd=HARNESS, check=False, env=env, timeout=3600)
+        rc, out, err = sh(cmd, cwd=hdir, check=False, env=env, timeout=3600)
         if rc != 0:
             raise MachineryError("harness build failed against " + REPO + ":\n" + err[-6000:])
     return harness_bin(pid, release) if pid else None
@@ -564,7 +587,8 @@ def check(pid, tier, seed):
                "bin": bin_path, "sh": sh, "lake_build": lake_build, "lean": LEAN, "env": ENV,
                "build_harness": build_harness, "bin_for": lambda p, release=False: build_harness(p, release),
                "model_bin": MODEL_BIN, "log": log, "corr": corr,
-               "MachineryError": MachineryError, "harness_target_dir": harness_target_dir()}
+               "MachineryError": MachineryError, "harness_target_dir": harness_target_dir(),
+               "harness_dir": harness_dir()}
         os.makedirs(ctx["work"], exist_ok=True)
         extra_result = extra.run(ctx)
 
